@@ -47,6 +47,7 @@ type RunConfig struct {
 	Straggler     int     `json:"straggler"`
 	Synthetic     bool    `json:"synthetic"`
 	PJoinerBadger float64 `json:"p_joiner_badger,omitempty"`
+	PAppError     float64 `json:"p_app_error,omitempty"`
 	StragglerP    float64 `json:"straggler_p"`
 	Variants      int     `json:"variants"`
 	TxStyle       string  `json:"tx_style"` // "unique" | "mixed"
